@@ -2,7 +2,9 @@
 
 A case is a whole file as a list of lines plus a validation mode and an
 optional overriding scheme; the implementation side opens MafReader on the
-lines and iterates it to the end through the public API.  Oracle (on the real
+lines - or, for two fifths of the files that can be stored, MafReader.reader_from
+on a plain or .gz scratch file under /verif/work - and iterates it to the end
+through the public API.  Oracle (on the real
 library, independent of the model): the iteration ends; it yields one record
 per line after the column-name line; the only exceptions are
 MafFormatException (Strict only) and ValueError (only when the header declares
@@ -12,7 +14,7 @@ import rd_common as R
 PID = "C16"
 CLUSTER = "Reader"
 PROPS = "props/C16.v"
-N_QUICK = 2100
+N_QUICK = 2300
 N_THOROUGH = 24000
 RULE = ("whole files as line lists: 0-4 pragma lines (no/unknown/basic gdc-1.0.0/annotated built-in scheme, optional "
         "sort.order of each kind, optional contigs), column line present/absent/last, 0-5 data lines; streams valid "
@@ -21,7 +23,9 @@ RULE = ("whole files as line lists: 0-4 pragma lines (no/unknown/basic gdc-1.0.0
         "control/non-ASCII characters, CRLF, overriding scheme, order break, chromosome missing from contigs), boundary "
         "(every H in 0..4 x 9 tails, empty input), typed-special (gdc-1.0.0 files with %/brace/backslash/quote texts in "
         "columns whose class rejects them, and zero-like texts 0/00/-0/empty in Chromosome/Start/End under every sort "
-        "order with contig lists containing 0), adversarial (1-4 defects combined); each under Strict/Lenient/Silent/"
+        "order with contig lists containing 0), order-special (contig lists without an accepted coordinate order, "
+        "BarcodesAndCoordinate files lacking a barcode and out of order, a caller-supplied scheme plus header defects), "
+        "linebreak-like (\\x0b \\x0c \\x1c-\\x1e \\x85 U+2028 U+2029 inside fields and pragmas), adversarial (1-4 defects combined); each under Strict/Lenient/Silent/"
         "default; non-trivial: at least one data line was reached or an exception was raised; distinct by hash of "
         "(lines, mode, override)")
 ASSUMPTIONS = [
@@ -97,7 +101,7 @@ def generate(rng, n):
     for c in R.reader_boundary_cases():
         for m in R.MODES:
             out.append(dict(c, mode=m))
-    for k, c in enumerate(R.typed_special_cases()):
+    for k, c in enumerate(R.typed_special_cases() + R.order_special_cases() + R.linebreak_like_cases()):
         out.append(dict(c, mode=R.MODES[k % 3]))
     while len(out) < n:
         streams = ["valid", "defect", "defect", "adversarial", "adversarial", "boundary"]
@@ -109,7 +113,16 @@ def generate(rng, n):
         c = R.gen_reader_case(rng, stream)
         c["mode"] = rng.choice(["Strict", "Lenient", "Silent", "Silent", None])
         out.append(c)
-    return out[:max(n, 1)]
+    out = out[:max(n, 1)]
+    # two fifths of the files that can be stored are read from disk (plain / .gz) through MafReader.reader_from
+    for k, c in enumerate(out):
+        ch = "lines"
+        if R.file_safe(c["lines"]) and c.get("override") is None and k % 5 in (1, 3):
+            ch = "path" if k % 5 == 1 else "gz"
+        if c["shape"].get("stream") == "linebreak-like":
+            ch = ("path", "gz", "lines")[k % 3]
+        c["channel"] = ch
+    return out
 
 
 def shrink(case):
@@ -123,7 +136,10 @@ def to_model(case):
 
 
 def run_impl(case):
-    return R.impl_reader(case["lines"], case["mode"], case["override"])
+    ch = case.get("channel", "lines")
+    if ch != "lines" and not (R.file_safe(case["lines"]) and case.get("override") is None):
+        ch = "lines"
+    return R.impl_reader(case["lines"], case["mode"], case["override"], ch)
 
 
 def from_model(case, sx):
@@ -165,7 +181,7 @@ def classify(case, obs):
     if obs is None:
         return "%s/error" % sh.get("stream")
     end = obs["end"][0] if obs["end"] else "end-of-input"
-    return "%s/%s/%s/%s" % (sh.get("stream"), case["mode"], "order" if sh.get("order") in SORTABLE else "no-order", end)
+    return "%s/%s/%s/%s/%s" % (case.get("channel", "lines"), sh.get("stream"), case["mode"], "order" if sh.get("order") in SORTABLE else "no-order", end)
 
 
 def nontrivial(case, obs):
